@@ -49,7 +49,7 @@ Qed.
 Lemma R_inv_abs k s b : R k s b -> inv k s /\ abs k s = mkB (blen_i b) (bval b).
 Proof.
   intros (p & H1 & H2 & H3 & H4 & H5).
-  unfold inv, abs, storage. cbn zeta. rewrite sval_rval, H1.
+  unfold inv, abs, storage. cbn zeta. rewrite <- !rev_alt, sval_rval, H1.
   replace (blen s + p - blen s) with p by lia. rewrite H4.
   repeat split; try lia; try assumption.
   - apply mul_mod_pow2.
@@ -78,7 +78,7 @@ Proof.
   intros HR Hn1 Hnw Hw Hd.
   destruct (R_pad _ _ _ HR) as (p & Hpad & HL & Hp & Hall & Hval & Hlen).
   cbn [wordbits] in *.
-  unfold u64_write_msbs_impl. rewrite Hpad. clear Hpad.
+  unfold u64_write_msbs_impl. p2. rewrite Hpad. clear Hpad.
   assert (Hv64 : d * 2 ^ (w - n) * 2 ^ (64 - w) = d * 2 ^ (64 - n)).
   { rewrite <- N.mul_assoc, <- N.pow_add_r. do 2 f_equal. lia. }
   rewrite Hv64.
@@ -184,7 +184,7 @@ Proof. reflexivity. Qed.
 Lemma mask_msbs_eq w v n : n <= w -> v < 2 ^ w ->
   mask_msbs w v n = (v / 2 ^ (w - n)) * 2 ^ (w - n) /\ v / 2 ^ (w - n) < 2 ^ n.
 Proof.
-  intros Hn Hv. unfold mask_msbs. rewrite N.mod_small by assumption. split; [reflexivity|].
+  intros Hn Hv. unfold mask_msbs. p2. rewrite N.mod_small by assumption. split; [reflexivity|].
   replace n with (w - (w - n)) at 2 by lia. apply hi_bound; [lia | assumption].
 Qed.
 
@@ -206,7 +206,7 @@ Lemma u64_write_lsbs_R s b w v n :
   R KU64 s b -> n <= w -> w <= 64 -> v < 2 ^ w ->
   exists s', u64_write_lsbs w v n s = Ok s' /\ R KU64 s' (bpush b n v).
 Proof.
-  intros HR Hn Hw Hv. unfold u64_write_lsbs.
+  intros HR Hn Hw Hv. unfold u64_write_lsbs. p2.
   destruct (N.eqb_spec n 0) as [->|Hn0].
   - exists s. split; [reflexivity|]. rewrite bpush_0. assumption.
   - destruct (N.ltb_spec w n) as [?|_]; [lia|].
@@ -231,7 +231,7 @@ Lemma twoc_shifted_eq v n : 1 <= n -> n <= 64 ->
   twoc_shifted v n = Z.to_N (v mod 2 ^ Z.of_N n) * 2 ^ (64 - n) /\
   Z.to_N (v mod 2 ^ Z.of_N n) < 2 ^ n.
 Proof.
-  intros H1 H64. unfold twoc_shifted.
+  intros H1 H64. unfold twoc_shifted. p2.
   assert (Hm : (0 <= v mod 2 ^ Z.of_N n < 2 ^ Z.of_N n)%Z).
   { apply Z.mod_pos_bound. apply Z.pow_pos_nonneg; lia. }
   split.
